@@ -450,6 +450,10 @@ def _witness_combiner(ctx):
 
 
 DIRECTED = {"single-entry-exact-origin-combo": _witness_combiner}
+from ..suite_leg import make as _suite_leg  # noqa: E402
+
+DIRECTED["suite-under-monitors"] = _suite_leg("C09")
+
 
 
 def teardown(ctx):
